@@ -73,6 +73,30 @@ func (env *Env) eval(e *SExpr) TV {
 	switch e.Kind {
 	case "implies":
 		return TV{VTerm{Implies(env.evalBool(e.L), env.evalBool(e.R))}, types.Typ[types.Bool]}
+	case "forallT", "existsT":
+		typ := env.typeExpr(e.Go)
+		if typ == nil {
+			return env.fail("quantifier type")
+		}
+		srt, ok := scalarSort(typ)
+		if !ok {
+			return env.fail("quantifier over a non-scalar type")
+		}
+		env.x.vc.ctr++
+		bv := Term{fmt.Sprintf("%s!q%d", e.Var, env.x.vc.ctr), srt}
+		saved, had := env.vars[e.Var]
+		env.vars[e.Var] = TV{VTerm{bv}, typ}
+		body := env.evalBool(e.Body)
+		if had {
+			env.vars[e.Var] = saved
+		} else {
+			delete(env.vars, e.Var)
+		}
+		q := "forall"
+		if e.Kind == "existsT" {
+			q = "exists"
+		}
+		return TV{VTerm{Term{fmt.Sprintf("(%s ((%s %s)) %s)", q, bv.S, string(srt), body.S), SBool}}, types.Typ[types.Bool]}
 	case "forall", "exists":
 		env.x.vc.ctr++
 		bv := Term{fmt.Sprintf("%s!q%d", e.Var, env.x.vc.ctr), SInt}
